@@ -206,6 +206,7 @@ type Knobs struct {
 	Shaped      bool // Netspoc-shaped ACLs: deny block, permits, final deny; edits keep the shape
 	NoShare     bool // never bind one ACL twice on the device
 	Crypto      bool // crypto map entries
+	DropIfaces  bool // the device lacks interfaces the target uses (the tool must reject the pair)
 }
 
 func DefaultKnobs(kind string, t *tape.Tape) Knobs {
@@ -1184,4 +1185,41 @@ func (g *GConf) cryptoObjs() []*cisco.Obj {
 		}
 	}
 	return l
+}
+
+// DropInterfaces removes up to n interfaces with everything bound to them from
+// the device.
+func DropInterfaces(a *GConf, n int) []string {
+	var ops []string
+	for ; n > 0 && len(a.Ifaces) > 1; n-- {
+		i := a.Ifaces[len(a.Ifaces)-1]
+		a.Ifaces = a.Ifaces[:len(a.Ifaces)-1]
+		name := i.Name
+		if a.Kind == "IOS" {
+			name = i.HW
+		}
+		var kb []GBind
+		for _, b := range a.Binds {
+			if b.Iface != name {
+				kb = append(kb, b)
+			}
+		}
+		a.Binds = kb
+		var kr []GRoute
+		for _, r := range a.Routes {
+			if r.Iface != name || a.Kind == "IOS" {
+				kr = append(kr, r)
+			}
+		}
+		a.Routes = kr
+		var kc []GCrypto
+		for _, c := range a.Crypto {
+			if c.Iface != name {
+				kc = append(kc, c)
+			}
+		}
+		a.Crypto = kc
+		ops = append(ops, "device lacks interface "+name)
+	}
+	return ops
 }
